@@ -674,6 +674,228 @@ class Dir(Gen):
             cases.append((init, [(k, op, src, info) for (k, op, src, info, _, _) in sel]))
         return cases
 
+    # ------------------------------------------------------------------ family R: one witness per rewrite rule
+    # variables of the rule layout (all operand shapes distinct: 3, 4, 5; `p2` = non-zero powers of two, used as divisors)
+    #   v0(3) v1(5) v2(4) v3(5)p2 v4(3) v5(4)p2 v6(5) v7(12: vector target)
+    #   A0(3x5) A1(3x5)p2 A2(3x4) A3(4x5) A4(4x4) A5(4x4)p2 A6(5x3) A7(10x10: row-major target)
+    #   B0(3x5) B1(4x5) B2(4x4) B3(10x10: column-major target)
+    RULE_FORMS = ["set", "plus", "na_set", "minus", "na_plus", "na_minus"]
+
+    def layout_rules(self):
+        self.setup([3, 5, 4, 5, 3, 4, 5, 12],
+                   [(3, 5), (3, 5), (3, 4), (4, 5), (4, 4), (4, 4), (5, 3), (10, 10)],
+                   [(3, 5), (4, 5), (4, 4), (10, 10)])
+        return self.init_ops({"*": "wide", "v3": "pow2", "v5": "pow2", "A1": "pow2", "A5": "pow2"})
+
+    def rule_builders(self):
+        """[(rule name, builder)]: for every rule of the table at least one expression whose construction through the
+        public functions makes exactly this specialisation fire, with NON-symmetric arguments: non-square operands,
+        row window != column window, start offsets > 0 and pairwise different, scalar factors != 1, non-commutative
+        functors (division), distinct operands on the two sides of every binary node"""
+        X = lambda kind, k: self.V(kind, k).expr()
+        v = lambda k: X("v", k)
+        A = lambda k: X("A", k)
+        B = lambda k: X("B", k)
+        sm, un, bn = self.mk_smul, self.un, self.bin
+        # matrix operands of shape 3 x 5, by expression class
+        m35 = {
+            "matrix_scalar_multiply": lambda: sm(2, A(0)),
+            "matrix_addition": lambda: self.mk_add(A(0), B(0)),
+            "scalar_matrix": lambda: self.mk_cmat(3, 5, 3),
+            "vector_repeater_row_major": lambda: self.mk_repeat(v(1), 3),
+            "vector_repeater_column_major": lambda: self.mk_trans(self.mk_repeat(v(0), 5)),
+            "matrix_unary": lambda: un("M", "abs", A(0)),
+            "matrix_binary": lambda: bn("M", "div", A(0), A(1)),
+            "outer_product": lambda: self.mk_outer(v(0), v(1)),
+            "matrix_matrix_prod": lambda: sm(-2, self.mk_mm(A(2), B(1))),
+            "diagonal_matrix": lambda: self.mk_diagm(v(1)),                       # 5 x 5
+        }
+        m35["vector_repeater"] = m35["vector_repeater_row_major"]
+        mcat = {"matrix_concat": lambda: self.mk_concatr(A(0), B(0)), "matrix_concat#b": lambda: self.mk_concatb(B(0), A(0))}
+        # square operands (4 x 4) for diag()
+        m44 = {
+            "matrix_scalar_multiply": lambda: sm(3, A(4)),
+            "matrix_addition": lambda: self.mk_add(A(4), B(2)),
+            "vector_repeater": lambda: self.mk_repeat(v(2), 4),
+            "vector_repeater#c": lambda: self.mk_trans(self.mk_repeat(v(2), 4)),
+            "matrix_unary": lambda: un("M", "abs", B(2)),
+            "matrix_binary": lambda: bn("M", "div", B(2), A(5)),
+            "outer_product": lambda: self.mk_outer(v(2), v(5)),
+            "diagonal_matrix": lambda: self.mk_diagm(v(2)),
+        }
+        # vector operands of size 5
+        v5 = {
+            "matrix_vector_prod": lambda: sm(-3, self.mk_mv(A(6), v(0))),
+            "vector_scalar_multiply": lambda: sm(2, v(1)),
+            "scalar_vector": lambda: self.mk_cvec(5, 3),
+            "unit_vector": lambda: self.mk_unit(5, 2, -3),
+            "vector_unary": lambda: un("V", "abs", v(1)),
+            "vector_addition": lambda: self.mk_add(v(1), v(6)),
+            "vector_binary": lambda: bn("V", "div", v(1), v(3)),
+            "vector_concat": lambda: self.mk_concat(v(0), self.mk_range(v(2), 1, 3)),
+        }
+        out = []
+
+        def add(rule, mk):
+            out.append((rule, mk))
+
+        def pat(r):
+            """key of the operand dictionaries for the pattern of rule r"""
+            p = r["pattern"]
+            head = p.split("<")[0]
+            if head == "vector_repeater":
+                if "row_major" in p:
+                    return "vector_repeater_row_major"
+                if "column_major" in p:
+                    return "vector_repeater_column_major"
+            return head
+
+        for r in self.api.c.rules_in_order():
+            if r["status"] != "translated":
+                continue
+            name, opt, key = r["name"], r["opt"], pat(r)
+            if opt == "vector_range_optimizer" and key in v5:
+                add(name, lambda key=key: self.mk_range(v5[key](), 1, 4))
+            elif opt == "matrix_transpose_optimizer" and (key in m35 or key in mcat):
+                if key in mcat:
+                    add(name, lambda: self.mk_trans(mcat["matrix_concat"]()))
+                    add(name, lambda: self.mk_trans(mcat["matrix_concat#b"]()))
+                else:
+                    add(name, lambda key=key: self.mk_trans(m35[key]()))
+            elif opt == "matrix_row_optimizer" and key in m35:
+                add(name, lambda key=key: self.mk_row(m35[key](), 2))
+            elif opt == "matrix_diagonal_optimizer" and key in m44:
+                add(name, lambda key=key: self.mk_diag(m44[key]()))
+                if key + "#c" in m44:
+                    add(name, lambda key=key: self.mk_diag(m44[key + "#c"]()))
+            elif opt == "matrix_range_optimizer" and key in m35:
+                # rows [1,3) and columns [2,5): different starts, different extents
+                # the rule for the diagonal matrix has the precondition start1 == start2, end1 == end2
+                # (REMORA_RANGE_CHECK: "unimplemented: non-diagonal subranges of diagonal matrix"; hypotheses hc1, hc2
+                # of its lemma), so its window is a diagonal block with a start offset
+                w = (1, 3, 2, 5) if key != "diagonal_matrix" else (1, 4, 1, 4)
+                add(name, lambda key=key, w=w: self.mk_mrange(m35[key](), *w))
+                if key == "vector_repeater":
+                    add(name, lambda: self.mk_mrange(m35["vector_repeater_column_major"](), 1, 3, 2, 5))
+            elif opt == "matrix_rows_optimizer" and key in m35:
+                add(name, lambda key=key: self.mk_rows(m35[key](), 1, 3))
+                add(None, lambda key=key: self.mk_cols(m35[key](), 2, 5))     # = trans(rows(trans(.)))
+            elif opt == "vector_scalar_multiply_optimizer":
+                if key == "default":
+                    add(name, lambda: sm(-2, v(1)))
+                elif key in v5:
+                    add(name, lambda key=key: sm((3, 2), v5[key](), key != "vector_addition"))     # t*v and v*t
+            elif opt == "matrix_scalar_multiply_optimizer":
+                if key == "default":
+                    add(name, lambda: sm(-2, B(0)))
+                elif key in mcat:
+                    add(name, lambda: sm(-2, mcat["matrix_concat"]()))
+                    add(name, lambda: sm(3, mcat["matrix_concat#b"]()))
+                elif key in m35:
+                    add(name, lambda key=key: sm((3, 2), m35[key](), key != "matrix_addition"))    # t*A and A*t
+            elif opt == "matrix_vector_prod_optimizer":
+                pp = r["pattern"]
+                if key == "default":
+                    add(name, lambda: self.mk_mv(A(0), v(1)))
+                    add(name, lambda: self.mk_vm(v(0), B(0)))
+                elif pp.startswith("matrix_scalar_multiply<M>, vector_scalar_multiply"):
+                    add(name, lambda: self.mk_mv(sm(2, A(0)), sm(-3, v(1))))
+                elif pp.startswith("matrix_scalar_multiply"):
+                    add(name, lambda: self.mk_mv(sm(2, B(0)), v(1)))
+                elif pp.startswith("M,"):
+                    add(name, lambda: self.mk_mv(A(0), sm(-3, v(1))))
+                elif key == "matrix_matrix_prod":
+                    add(name, lambda: self.mk_mv(sm(2, self.mk_mm(A(2), B(1))), v(1)))
+                elif key == "matrix_addition":
+                    add(name, lambda: self.mk_mv(self.mk_add(A(0), sm(2, B(0))), v(1)))
+                elif key == "outer_product":
+                    add(name, lambda: self.mk_mv(self.mk_outer(v(0), v(1)), v(6)))
+                elif key == "vector_repeater_row_major":
+                    add(name, lambda: self.mk_mv(self.mk_repeat(v(1), 3), v(6)))
+                elif key == "diagonal_matrix":
+                    add(name, lambda: self.mk_mv(self.mk_diagm(v(1)), v(6)))
+                    # the same operand classes on the left: prod(v, M) = prod(trans(M), v)
+                    add(None, lambda: self.mk_vm(v(0), sm(2, B(0))))
+                    add(None, lambda: self.mk_vm(sm(-3, v(0)), sm(2, A(0))))
+                    add(None, lambda: self.mk_vm(v(0), self.mk_add(A(0), sm(2, B(0)))))
+                    add(None, lambda: self.mk_vm(v(0), sm(2, self.mk_mm(A(2), B(1)))))
+                    add(None, lambda: self.mk_vm(v(4), self.mk_outer(v(0), v(1))))
+                    add(None, lambda: self.mk_vm(v(6), self.mk_diagm(v(1))))
+            elif opt == "matrix_matrix_prod_optimizer" and key == "default":
+                add(name, lambda: self.mk_mm(A(2), B(1)))
+                add(name, lambda: self.mk_mm(self.mk_trans(A(6)), self.mk_trans(A(3))))
+            elif opt == "matrix_unary_optimizer":
+                if key == "default":
+                    add(name, lambda: un("M", "abs", B(0)))
+                elif key == "matrix_unary":
+                    add(name, lambda: un("M", "sqr", un("M", "abs", A(0))))
+                elif key == "matrix_binary":
+                    add(name, lambda: un("M", "abs", bn("M", "div", A(0), A(1))))
+            elif opt == "vector_unary_optimizer":
+                if key == "default":
+                    add(name, lambda: un("V", "abs", v(1)))
+                elif key == "vector_unary":
+                    add(name, lambda: un("V", "sqr", un("V", "abs", v(1))))
+                elif key == "vector_binary":
+                    add(name, lambda: un("V", "abs", bn("V", "div", v(1), v(3))))
+                elif key == "matrix_row_transform":
+                    # g2(fold(A, f, g)): the outer functor applies to the folded value, not to the elements
+                    add(name, lambda: un("V", "abs", self.mk_fold("min", True, A(0))))
+                    add(name, lambda: un("V", "sqr", self.mk_fold("sum", False, B(0))))
+            elif opt == "fold_vector_set_optimizer":
+                rows = "row_major" in r["pattern"]
+                add(name, lambda rows=rows: self.mk_fold("sum", rows, A(0)))
+                add(name, lambda rows=rows: self.mk_fold("max", rows, B(0)))
+                add(name, lambda rows=rows: self.mk_fold("norm_1", rows, A(0)))
+        return out
+
+    def family_rules(self, quick, per_case=10):
+        """family R: for every translated rule of the table statements that make it fire (decided by the class-level
+        interpreter: the rule is in the set of specialisations selected while the expression is built)"""
+        calc = self.api.c if self.api is not None else None
+        self.rule_witness = {}
+        if calc is None:
+            return []
+        cases, stmts = [], []
+        init = self.layout_rules()
+        builders = self.rule_builders()
+        n = 0
+        for rule, mk in builders:
+            before = dict(calc.fired)
+            try:
+                e = mk()
+            except Unsupported as u:
+                self.skip(f"{rule}: {u}")
+                continue
+            delta = sorted(k for k, c in calc.fired.items() if c != before.get(k, 0))
+            if rule is not None and rule not in delta:
+                self.skip(f"{rule}: builder does not fire it")
+                continue
+            n += 1
+            fname = self.RULE_FORMS[n % len(self.RULE_FORMS)]
+            if e.kind == "V":
+                L = e.shape
+                s0 = (3 * n) % (12 - L + 1)
+                T = self.p_range(self.p_var(self.V("v", 7)), s0, s0 + L)
+            else:
+                n1, n2 = e.shape
+                base = self.p_var(self.V("A", 7) if n % 2 else self.V("B", 3))
+                s1, s2 = (3 * n) % (10 - n1 + 1), (5 * n + 1) % (10 - n2 + 1)
+                T = self.p_mrange(base, s1, s1 + n1, s2, s2 + n2)
+            k0 = len(stmts)
+            if not self.emit(stmts, fname, T, e, "rule"):
+                continue
+            stmts[k0][3]["witness"] = rule
+            stmts[k0][3]["rules"] = delta
+            for fr in ([rule] if rule is not None else delta):
+                self.rule_witness[fr] = self.rule_witness.get(fr, 0) + 1
+            if len(stmts) >= per_case:
+                cases.append((init, stmts))
+                stmts, init = [], self.layout_rules()
+        if stmts:
+            cases.append((init, stmts))
+        return cases
+
     # ------------------------------------------------------------------ family D: triangular products
     def pool_tri(self):
         #   v0(T) v1(T)   A0(TxT) A1(TxN) A2(TxN)   B0(TxT) B1(TxN) B2(TxN)
@@ -732,6 +954,7 @@ def directed_program(ctx, calc, quick, with_tri=True):
     cases += d.family_bc(quick)
     if with_tri:
         cases += d.family_tri(quick)
+    cases += d.family_rules(quick)      # last: its statement numbers do not shift those of the other families
     if not quick:
         d2 = Dir(ctx, calc, ctx.rng.fork("c01-directed-structure"), dr)
         d2.k = d.k + 100000
